@@ -9,6 +9,19 @@ BASE_ASSUMPTIONS = [
 ]
 
 CHECKS = {
+    "C13": {
+        "quick": [
+            {"pkg": "v2", "entries": ["VerifC13Patch"], "params": {"PLEN": 1}},
+            {"pkg": "v2", "entries": ["VerifC13Patch"], "params": {"PLEN": 2, "RENDER": 1}},
+        ],
+        "thorough": [
+            {"pkg": "v2", "entries": ["VerifC13Patch"], "params": {"PLEN": 2, "RM": 2, "AD": 2}},
+            {"pkg": "v2", "entries": ["VerifC13Patch"], "params": {"PLEN": 2, "RENDER": 1}},
+        ],
+        "covers": ["c13.patch"],
+        "outside": "raw byte-level text inside encoding/json, yaml.v2 and jsonpointer (assumed to return a value of the documented shape or an error and not to panic); paths longer than PLEN; the CLI process",
+        "level_note": "PARTIAL claim (DESIGN.md section 7): decided is jd's own code on structurally valid diffs with arbitrary paths (any finite float index) against arbitrary small targets, and the readers on every line/op structure with arbitrary decode outcomes; byte-level behaviour of the third-party parsers is assumed, not checked. Trusted: gosym interpreter (validated by native replay of sampled paths), SMT solvers, hash/codec models.",
+    },
     "C03": {
         "quick": [
             {"pkg": "v2", "entries": ["VerifC03Hunk"], "params": {"N": 2, "CTX": 2, "RM": 2, "AD": 1}},
@@ -72,7 +85,7 @@ DEFAULT_TECHNIQUE = "bounded symbolic execution of the Go SSA with SMT (z3/cvc5)
 _NA_PENDING = "check not built yet in this session (engine exists; harness pending)"
 NOT_APPLICABLE = {
     "C02": _NA_PENDING, "C06": _NA_PENDING, "C07": _NA_PENDING,
-    "C08": _NA_PENDING, "C09": _NA_PENDING, "C10": _NA_PENDING, "C11": _NA_PENDING, "C12": _NA_PENDING, "C13": _NA_PENDING,
+    "C08": _NA_PENDING, "C09": _NA_PENDING, "C10": _NA_PENDING, "C11": _NA_PENDING, "C12": _NA_PENDING,
     "C14": _NA_PENDING, "C15": _NA_PENDING, "C17": _NA_PENDING, "C18": _NA_PENDING,
     "C16": ("quantifies over the characters of strings as they pass through yaml.v2's scanner/resolver/emitter and encoding/json "
             "(about 10k lines of third-party reflection- and regexp-driven text code); no Go symbolic engine in the image reaches that "
